@@ -20,6 +20,9 @@ pub enum FsInfoKind {
     HintLast,
     /// the hint names the (in-use) cluster right after the highest free one: nothing is free from the hint upwards
     HintAfterLastFree,
+    /// count 0 although clusters are free, and the hint right behind the highest free cluster: both records stale
+    /// at once (neither alone sends the allocator round)
+    ZeroHintAfterLastFree,
     /// a count just below the "unknown" mark: 0xFFFFFFFE - k
     CountNearMax(u8),
     /// count 0 (stale) together with an unknown hint (0xFFFFFFFF, 0 or 1)
@@ -873,9 +876,9 @@ pub fn format_volume(img: &mut Image, v: &VolSpec) -> VolOut {
             FsInfoKind::HintLast => (free_now, n - 1),
             FsInfoKind::CountNearMax(k) => (0xFFFF_FFFE - k as u32, first_free),
             FsInfoKind::ZeroUnknownHint(k) => (0, [0xFFFF_FFFFu32, 0, 1][(k % 3) as usize]),
-            FsInfoKind::HintAfterLastFree => {
+            FsInfoKind::HintAfterLastFree | FsInfoKind::ZeroHintAfterLastFree => {
                 let last_free = (2..n).rev().find(|&c| bld.al.is_free(c));
-                (free_now, last_free.map_or(used_cluster, |c| (c + 1).min(n - 1)))
+                (if v.fsinfo == FsInfoKind::ZeroHintAfterLastFree { 0 } else { free_now }, last_free.map_or(used_cluster, |c| (c + 1).min(n - 1)))
             }
         };
         f[488..492].copy_from_slice(&count.to_le_bytes());
@@ -1097,7 +1100,7 @@ pub fn gen_volspec(rng: &mut Rng, bias: Bias, lba: u32, slot: u8) -> VolSpec {
     } else {
         0
     };
-    VolSpec {
+    let mut v = VolSpec {
         slot,
         ptype: if fat32 { *rng.pick(&[0x0Bu8, 0x0C, 0x0C]) } else { *rng.pick(&[0x06u8, 0x0E, 0x04, 0x06]) },
         lba,
@@ -1144,7 +1147,24 @@ pub fn gen_volspec(rng: &mut Rng, bias: Bias, lba: u32, slot: u8) -> VolSpec {
             // file behind a label of the same name is unreachable by design; see DESIGN 16)
             label_twin: false,
         },
+    };
+    // variations added later are derived from the tree seed, not drawn: the stream above stays what it was
+    let mut r2 = Rng::new(v.tree.seed ^ 0x7661_7269_6174_696f);
+    let (a, b, c) = (r2.below(16), r2.below(2), r2.below(24));
+    if v.fat32 && a == 0 {
+        // a long reserved area with the information sector beyond block 255 (the field is 16 bits wide)
+        v.reserved = 258 + r2.below(300) as u16;
+        v.fsinfo_sector = 256 + r2.below(v.reserved as u64 - 256) as u16;
+        v.backup_boot = 6;
     }
+    if v.fsinfo == FsInfoKind::HintAfterLastFree && b == 0 {
+        v.fsinfo = FsInfoKind::ZeroHintAfterLastFree;
+    }
+    if !v.fat32 && c == 0 {
+        // the largest root directories: 2048 entries and more (entry count times 32 no longer fits 16 bits)
+        v.root_entries = *r2.pick(&[2048u16, 2048, 2049, 4096, 2064]);
+    }
+    v
 }
 
 pub fn gen_devspec(rng: &mut Rng, bias: Bias, max_vols: usize) -> DevSpec {
